@@ -36,6 +36,7 @@ macro "same_tac" : tactic => `(tactic| (splits <;> simp_all [Same]))
 /-! ### Step.lean -/
 
 @[simp] theorem same_emit (s : State) (e : String) : Same s (s.emit e) := ⟨rfl, rfl, by simp [State.emit]⟩
+@[simp] theorem same_emitEv (s : State) (k : EvKind) (r : String) : Same s (s.emitEv k r) := ⟨rfl, rfl, by simp [State.emitEv, doneOf]⟩
 @[simp] theorem same_storeFatal (s : State) (t : String) : Same s (storeFatal s t) := by unfold storeFatal; same_tac
 @[simp] theorem same_cancelFlows (s : State) (e : CErr) : Same s (cancelFlows s e) := by unfold cancelFlows; same_tac
 @[simp] theorem same_cancelInitFlow (s : State) (e : CErr) : Same s (cancelInitFlow s e) := ⟨rfl, rfl, rfl⟩
@@ -240,7 +241,7 @@ theorem selv_map (l : List Flight) (g : Flight → Flight)
 @[simp] theorem same_initTailEvents (s : State) (ph : Phase) (st : String) : Same s (initTailEvents s ph st) := by
   unfold initTailEvents
   dsimp only
-  refine Same.trans (Same.trans (b := (if s.rtDoneReg = true then s.emit _ else s)) ?_ (same_foldl_emit _ _ _)) (same_emit _ _)
+  refine Same.trans (Same.trans (b := (if s.rtDoneReg = true then s.emitEv _ _ else s)) ?_ (same_foldl_emit _ _ _)) (same_emitEv _ _ _)
   split <;> simp [Same]
 @[simp] theorem same_initFinish (s : State) (ph : Phase) (ok : Bool) (st : String) (e : Option CErr) : Same s (initFinish s ph ok st e) := by
   unfold initFinish; same_tac
